@@ -643,3 +643,126 @@ PROPS["C16"] = Prop(
              "the byte comparison and the model-free round trips only"],
     assumptions=["non-finite floats are outside the property", "Cal/UnionCal bytes depend on hash order: round trip and "
                  "queries only, no byte comparison", "JSON tree level is not modelled in Lean: model-free round trips only"])
+
+
+# ---------------------------------------------------------------------------------------------
+# C20: fallible entry points
+
+def _nclass(n):
+    n = int(n)
+    if n in (-128, 127, 0):
+        return str(n)
+    return "neg" if n < 0 else "pos"
+
+
+def _cls_c20(t, impl):
+    op = t[0]
+    head = impl.split(" ", 2)
+    if op in ("loadjson", "loadjsonx"):
+        return "loadjson:" + (" ".join(head[:2]) if head[0] == "ok" else head[0]), True
+    if op in ("adddays", "addbus", "lag"):
+        return "%s:n=%s:%s" % (op, _nclass(t[3]), "err" if impl == "err" else "date"), True
+    if op == "addmonths":
+        return "addmonths:roll=%s" % (t[5][0]), True
+    if op == "roll":
+        return "roll:" + t[3], True
+    if op in ("trydual", "trydual2", "ccy", "fxpair", "named", "fx", "csolve"):
+        return "%s:%s" % (op, head[0]), True
+    if op == "spshape":
+        return "spshape:c=" + ("none" if impl.endswith("c=-") else "set"), True
+    return None, False
+
+
+def _kv(impl):
+    d = {}
+    for tok in impl.split():
+        if "=" in tok:
+            k, v = tok.split("=", 1)
+            d[k] = v
+    return d
+
+
+def _oracle_c20(t, impl):
+    """model-free: no entry point aborts, and whatever is returned satisfies its type's shape invariants"""
+    op = t[0]
+    if impl in ("panic", "abort"):
+        return "%s: the call %s" % (op, "panicked" if impl == "panic" else "ABORTED the process")
+    if op in ("adddays", "lag", "addmonths", "roll"):
+        try:
+            int(impl)
+        except ValueError:
+            return "%s did not return a date: %r" % (op, impl)
+    if op == "addbus" and impl != "err":
+        try:
+            int(impl)
+        except ValueError:
+            return "addbus returned neither a date nor an error: %r" % impl
+    kv = _kv(impl)
+    if op == "trydual" and impl.startswith("ok") and kv["v"] != kv["d"]:
+        return "Dual::try_new accepted %s names with %s sensitivities" % (kv["v"], kv["d"])
+    if op == "trydual2" and impl.startswith("ok"):
+        if kv["v"] != kv["d"] or kv["h"] != "%sx%s" % (kv["v"], kv["v"]):
+            return "Dual2::try_new returned an inconsistent shape: %s" % impl
+    if op == "ccy" and impl.startswith("ok "):
+        name = b"" if impl[3:] == "-" else bytes.fromhex(impl[3:])
+        if len(name) != 3 or name != name.lower():
+            return "Ccy::try_new returned %r" % name
+    if op == "fxpair" and impl.startswith("ok "):
+        name = bytes.fromhex(impl[3:])
+        if len(name) != 6 or name[:3] == name[3:]:
+            return "FXPair::try_new returned %r" % name
+    if op == "spshape":
+        if int(kv["n"]) != int(kv["t"]) - int(kv["k"]) or kv["c"] not in ("-", kv["n"]):
+            return "spline shape invariant broken after csolve: %s" % impl
+    if op in ("loadjson", "loadjsonx") and impl.startswith("ok "):
+        kind = impl.split()[1]
+        if kind == "Dual" and kv["v"] != kv["d"]:
+            return "loaded a Dual with %s names and %s sensitivities" % (kv["v"], kv["d"])
+        if kind == "Dual2" and (kv["v"] != kv["d"] or kv["h"] != "%sx%s" % (kv["v"], kv["v"])):
+            return "loaded a Dual2 of inconsistent shape: %s" % impl
+        if kind.startswith("PPSpline"):
+            if int(kv["t"]) < 2 or int(kv["n"]) != int(kv["t"]) - int(kv["k"]) or kv["c"] not in ("-", kv["n"]):
+                return "loaded a spline of inconsistent shape: %s" % impl
+        if kind == "FXRates":
+            names = [bytes.fromhex(x) for x in kv["c"].split(",") if x and x != "-"]
+            if len(names) != int(kv["q"]) + 1:
+                return "loaded an FX market with %s quotes and %d currencies" % (kv["q"], len(names))
+            if any(len(x) != 3 or x != x.lower() for x in names):
+                return "loaded an FX market with a malformed currency: %r" % names
+    return None
+
+
+def _cmp_c20(t, il, ml):
+    # Curve documents are outside the loader model: the implementation side is judged by the oracle alone
+    if t and t[0] in ("loadjson", "loadjsonx") and ml == "unmodelled":
+        return True
+    return None
+
+
+def _key_c20(t, il, ml):
+    if t[0] in ("loadjson", "loadjsonx"):
+        return "loadjson:" + t[1][:64]
+    return " ".join(t[:6])
+
+
+PROPS["C20"] = Prop(
+    rule="per round: a random Cal (mask never all seven days), a UnionCal with/without settlement, a NamedCal; ALL 256 "
+         "8-bit day counts through add_days / add_bus_days / lag (rotating), the extremes through all three; add_months "
+         "with every roll day 1..31 and eom/som/imm/unspecified at offsets landing anywhere in 1970-02..2200-11 (both "
+         "ends hit); roll; Dual/Dual2::try_new with mismatched and duplicated names; Ccy/FXPair/NamedCal::try_new on "
+         "ASCII and non-ASCII strings; FXRates::try_new on trees, cycles, repeats and mixed settlement; csolve on "
+         "regular, singular (zero matrix, repeated sites), non-finite and mismatched systems; ~320 JSON documents built "
+         "by the library's own to_json for every tagged type and mutated 0-3 times (delete / duplicate / rename / add a "
+         "field, object<->array, replace or perturb values, drop / repeat / swap elements), plus non-JSON texts. "
+         "Every call runs under catch_unwind; JSON loading runs in a worker process so that an abort is an outcome",
+    classify=_cls_c20, mode="exact", finding_key=_key_c20, oracle=_oracle_c20, compare_op=_cmp_c20,
+    exhaustive=lambda tier: False,
+    def_ops=DEF_OPS,
+    trusted=["Lean model of serde's derived visitors, ndarray's visitor and the validating data models "
+             "(lean/RateslibModel/Model/Load.lean), tied to the code by outcome-and-shape comparison on mutated documents",
+             "JSON tokenizer of the driver (lean/Driver/Json.lean): outside the theorems, validated by the same comparison",
+             "chrono's date/weekday text parsing is modelled only for the spellings the library itself writes"],
+    assumptions=["calendars have at least one working weekday (an all-seven-day mask makes every adjustment loop forever)",
+                 "JSON numbers are exactly representable doubles (knot order is compared exactly)",
+                 "Rust's Unicode lower-casing is modelled as ASCII lower-casing; generated strings have no cased "
+                 "non-ASCII letters", "Curve documents are not modelled"])
